@@ -16,6 +16,11 @@
 //!   nh:<tag>:<raw>              set_nexthop
 //!   wfu:c:<pdu> wfu:m:<pdu>     RouteWorkshop::from_update_pdu with the first conventional /
 //!                               first MP_REACH announcement of the PDU
+//! The tokens that take a PDU may carry a session suffix (`fu2:`, `owna:`, `wfu2a:m:` ...):
+//!   `2` = two-octet session (`SessionConfig::legacy()`), `a` = ADD-PATH (rx + tx) for all 13
+//!   families (path ids in the conventional sections and in MP_REACH / MP_UNREACH), none =
+//!   `SessionConfig::modern()`.
+//!   nh tags: 0 Unicast(v4) 1 Unicast(v6) 2 Ipv6LL 3 MplsVpnUnicast(rd, v4) 4 MplsVpnUnicast(rd, v6) 5 Empty
 //! Replies: one token per request token; mutating ops append `|<state>` where
 //! state = `code=<k><composed hex>;...#<bytes_len>` in map iteration order.
 use crate::common::*;
@@ -27,9 +32,10 @@ use routecore::bgp::communities::{
 };
 use routecore::bgp::message::update_builder::StandardCommunitiesList;
 use routecore::bgp::message::{PduParseInfo, SessionConfig, UpdateMessage};
-use routecore::bgp::nlri::afisafi::{
-    Ipv4MulticastNlri, Ipv4UnicastNlri, Ipv6MulticastNlri, Ipv6UnicastNlri,
-};
+use bytes::Bytes;
+use crate::props::c05;
+use routecore::bgp::nlri::afisafi::*;
+use routecore::bgp::types::RouteDistinguisher;
 use routecore::bgp::nlri::nexthop::NextHop;
 use routecore::bgp::path_attributes::*;
 use routecore::bgp::types::{
@@ -160,9 +166,22 @@ fn num(s: &str) -> Option<u8> {
     if s != c.to_string() { None } else { Some(c) }
 }
 
-fn parse_pdu(h: &str) -> Option<Option<UpdateMessage<Vec<u8>>>> {
+const ALL_FAMS: [(u16, u8); 13] = [(1, 1), (1, 2), (1, 4), (1, 128), (1, 132), (1, 133), (2, 1), (2, 2), (2, 4), (2, 128), (2, 133), (25, 65), (25, 70)];
+
+/// `fu`, `fu2`, `fua`, `fu2a` -> (four-octet session?, ADD-PATH session?)
+fn sess_of(base: &str, tok: &str) -> Option<(bool, bool)> {
+    match tok.strip_prefix(base)? { "" => Some((true, false)), "2" => Some((false, false)), "a" => Some((true, true)), "2a" => Some((false, true)), _ => None }
+}
+
+fn session(four: bool, ap: bool) -> SessionConfig {
+    let mut sc = if four { SessionConfig::modern() } else { SessionConfig::legacy() };
+    if ap { for k in ALL_FAMS { sc.add_addpath_rxtx(AfiSafiType::from(k)); } }
+    sc
+}
+
+fn parse_pdu(h: &str, four: bool, ap: bool) -> Option<Option<UpdateMessage<Bytes>>> {
     let raw = unhex(h)?;
-    Some(UpdateMessage::from_octets(raw, &SessionConfig::modern()).ok())
+    Some(UpdateMessage::from_octets(Bytes::from(raw), &session(four, ap)).ok())
 }
 
 fn pm_tok(a: &mut PaMap, b: &mut PaMap, tok: &str) -> Option<String> {
@@ -209,8 +228,9 @@ fn pm_tok(a: &mut PaMap, b: &mut PaMap, tok: &str) -> Option<String> {
             a.merge_upsert(b);
             Some(format!("M{}|{}", b.len(), show_map(a)))
         }
-        ["fu", p] => {
-            match parse_pdu(p)? {
+        [k, p] if sess_of("fu", k).is_some() => {
+            let (four, ap) = sess_of("fu", k)?;
+            match parse_pdu(p, four, ap)? {
                 None => Some("Frej".into()),
                 Some(pdu) => match PaMap::from_update_pdu(&pdu) {
                     Ok(m) => { *a = m; Some(format!("Fok|{}", show_map(a))) }
@@ -218,8 +238,9 @@ fn pm_tok(a: &mut PaMap, b: &mut PaMap, tok: &str) -> Option<String> {
                 },
             }
         }
-        ["mu", p] => {
-            match parse_pdu(p)? {
+        [k, p] if sess_of("mu", k).is_some() => {
+            let (four, ap) = sess_of("mu", k)?;
+            match parse_pdu(p, four, ap)? {
                 None => Some("Urej".into()),
                 Some(pdu) => match PaMap::from_update_pdu(&pdu) {
                     Ok(mut m) => { a.merge_upsert(&mut m); Some(format!("Uok|{}", show_map(a))) }
@@ -227,8 +248,9 @@ fn pm_tok(a: &mut PaMap, b: &mut PaMap, tok: &str) -> Option<String> {
                 },
             }
         }
-        ["own", p] => {
-            match parse_pdu(p)? {
+        [k, p] if sess_of("own", k).is_some() => {
+            let (four, ap) = sess_of("own", k)?;
+            match parse_pdu(p, four, ap)? {
                 None => Some("Orej".into()),
                 Some(pdu) => {
                     let owned = OwnedPathAttributes::from(pdu.path_attributes().unwrap());
@@ -268,6 +290,8 @@ fn show_nh(nh: &Option<NextHop>) -> String {
         Some(NextHop::Unicast(IpAddr::V4(a))) => format!("0.{}", hex(&a.octets())),
         Some(NextHop::Unicast(IpAddr::V6(a))) => format!("1.{}", hex(&a.octets())),
         Some(NextHop::Ipv6LL(a, b)) => format!("2.{}{}", hex(&a.octets()), hex(&b.octets())),
+        Some(NextHop::MplsVpnUnicast(rd, IpAddr::V4(a))) => format!("3.{}{}", hex(rd.as_ref()), hex(&a.octets())),
+        Some(NextHop::MplsVpnUnicast(rd, IpAddr::V6(a))) => format!("4.{}{}", hex(rd.as_ref()), hex(&a.octets())),
         Some(NextHop::Empty) => "5.-".into(),
         Some(_) => "9.-".into(),
     }
@@ -339,6 +363,11 @@ fn ws_tok(w: &mut Ws, tok: &str) -> Option<String> {
                 ("2", 32) => NextHop::Ipv6LL(
                     Ipv6Addr::from(<[u8; 16]>::try_from(&raw[..16]).ok()?),
                     Ipv6Addr::from(<[u8; 16]>::try_from(&raw[16..]).ok()?)),
+                ("3", 12) => NextHop::MplsVpnUnicast(RouteDistinguisher::new(<[u8; 8]>::try_from(&raw[..8]).ok()?),
+                    IpAddr::V4(Ipv4Addr::from(<[u8; 4]>::try_from(&raw[8..]).ok()?))),
+                ("4", 24) => NextHop::MplsVpnUnicast(RouteDistinguisher::new(<[u8; 8]>::try_from(&raw[..8]).ok()?),
+                    IpAddr::V6(Ipv6Addr::from(<[u8; 16]>::try_from(&raw[8..]).ok()?))),
+                ("5", 0) => NextHop::Empty,
                 _ => return None,
             };
             let old = on_ws!(w, ws => ws.set_nexthop(nh));
@@ -354,9 +383,11 @@ fn ws_tok(w: &mut Ws, tok: &str) -> Option<String> {
             let r = by_code!(c, T => on_ws!(w, ws => ws.attributes_mut().remove::<T>().map(PathAttribute::from)), None);
             Some(format!("R{}|{}", show_ret(r), show_ws(w)))
         }
-        ["wfu", mode, p] => {
+        [k, mode, p] if sess_of("wfu", k).is_some() => {
+            let (four, ap) = sess_of("wfu", k)?;
             if *mode != "c" && *mode != "m" { return None; }
-            let pdu = match parse_pdu(p)? { None => return Some("Urej".into()), Some(pdu) => pdu };
+            let pdu = match parse_pdu(p, four, ap)? { None => return Some("Urej".into()), Some(pdu) => pdu };
+            // the four NLRI types of the first version of this check: the workshop built is kept
             macro_rules! build {
                 ($N:ty, $V:ident) => {{
                     let it = pdu.typed_announcements::<_, $N>();
@@ -370,18 +401,64 @@ fn ws_tok(w: &mut Ws, tok: &str) -> Option<String> {
                     }
                 }};
             }
+            // every other NLRI type: the workshop built is observed (reply), its next hop and
+            // attribute map are then carried over into an IPv4 unicast workshop for the tokens
+            // that follow (they do not depend on the NLRI type)
+            macro_rules! build_t {
+                ($N:ty) => {{
+                    let it = pdu.typed_announcements::<_, $N>();
+                    let n = match it { Ok(Some(mut it)) => it.next(), _ => None };
+                    match n {
+                        Some(Ok(n)) => match RouteWorkshop::from_update_pdu(n, &pdu) {
+                            Ok(r) => {
+                                let shown = format!("nh={}|{}", show_nh(r.nexthop()), show_map(r.attributes()));
+                                let mut t = match new_ws() { Ws::V4(t) => t, _ => unreachable!() };
+                                t.set_attributes(r.attributes().clone());
+                                if let Some(nh) = r.nexthop() { t.set_nexthop(*nh); }
+                                *w = Ws::V4(t);
+                                Some(format!("Uok|{}", shown))
+                            }
+                            Err(_) => Some("Uerr".into()),
+                        },
+                        _ => Some("Unonlri".into()),
+                    }
+                }};
+            }
             if *mode == "c" {
                 if !pdu.has_conventional_nlri() { return Some("Unonlri".into()); }
-                build!(Ipv4UnicastNlri, V4)
+                if ap { build_t!(Ipv4UnicastAddpathNlri) } else { build!(Ipv4UnicastNlri, V4) }
             } else {
                 // which family does the first MP_REACH_NLRI carry? (read off the wire here,
                 // independent of routecore)
                 let mp = ref_wire(&ref_attr_section(&unhex(p)?)?).into_iter().find(|x| x.1 == 14);
                 match mp {
-                    Some((_, _, v)) if v.len() >= 3 => match (u16::from_be_bytes([v[0], v[1]]), v[2]) {
-                        (2, 1) => build!(Ipv6UnicastNlri, V6),
-                        (1, 2) => build!(Ipv4MulticastNlri, M4),
-                        (2, 2) => build!(Ipv6MulticastNlri, M6),
+                    Some((_, _, v)) if v.len() >= 3 => match (u16::from_be_bytes([v[0], v[1]]), v[2], ap) {
+                        (1, 1, false) => build!(Ipv4UnicastNlri, V4),
+                        (2, 1, false) => build!(Ipv6UnicastNlri, V6),
+                        (1, 2, false) => build!(Ipv4MulticastNlri, M4),
+                        (2, 2, false) => build!(Ipv6MulticastNlri, M6),
+                        (1, 1, true) => build_t!(Ipv4UnicastAddpathNlri),
+                        (2, 1, true) => build_t!(Ipv6UnicastAddpathNlri),
+                        (1, 2, true) => build_t!(Ipv4MulticastAddpathNlri),
+                        (2, 2, true) => build_t!(Ipv6MulticastAddpathNlri),
+                        (1, 4, false) => build_t!(Ipv4MplsUnicastNlri<Bytes>),
+                        (1, 4, true) => build_t!(Ipv4MplsUnicastAddpathNlri<Bytes>),
+                        (2, 4, false) => build_t!(Ipv6MplsUnicastNlri<Bytes>),
+                        (2, 4, true) => build_t!(Ipv6MplsUnicastAddpathNlri<Bytes>),
+                        (1, 128, false) => build_t!(Ipv4MplsVpnUnicastNlri<Bytes>),
+                        (1, 128, true) => build_t!(Ipv4MplsVpnUnicastAddpathNlri<Bytes>),
+                        (2, 128, false) => build_t!(Ipv6MplsVpnUnicastNlri<Bytes>),
+                        (2, 128, true) => build_t!(Ipv6MplsVpnUnicastAddpathNlri<Bytes>),
+                        (1, 132, false) => build_t!(Ipv4RouteTargetNlri<Bytes>),
+                        (1, 132, true) => build_t!(Ipv4RouteTargetAddpathNlri<Bytes>),
+                        (1, 133, false) => build_t!(Ipv4FlowSpecNlri<Bytes>),
+                        (1, 133, true) => build_t!(Ipv4FlowSpecAddpathNlri<Bytes>),
+                        (2, 133, false) => build_t!(Ipv6FlowSpecNlri<Bytes>),
+                        (2, 133, true) => build_t!(Ipv6FlowSpecAddpathNlri<Bytes>),
+                        (25, 65, false) => build_t!(L2VpnVplsNlri),
+                        (25, 65, true) => build_t!(L2VpnVplsAddpathNlri),
+                        (25, 70, false) => build_t!(L2VpnEvpnNlri<Bytes>),
+                        (25, 70, true) => build_t!(L2VpnEvpnAddpathNlri<Bytes>),
                         _ => Some("Unonlri".into()),
                     },
                     _ => Some("Unonlri".into()),
@@ -455,7 +532,7 @@ fn ref_flags(code: u8) -> Option<u8> {
 #[derive(PartialEq, Debug, Clone)]
 enum RHop { Asn([u8; 4]), Seg(u8, Vec<u8>) }
 
-fn ref_hops(v: &[u8]) -> Option<Vec<RHop>> {
+fn ref_hops_w(v: &[u8], w: usize) -> Option<Vec<RHop>> {
     let mut i = 0;
     let mut out = Vec::new();
     while i < v.len() {
@@ -463,26 +540,46 @@ fn ref_hops(v: &[u8]) -> Option<Vec<RHop>> {
         let t = v[i];
         let n = v[i + 1] as usize;
         if !(1..=4).contains(&t) { return None; }
-        if i + 2 + 4 * n > v.len() { return None; }
-        let body = &v[i + 2..i + 2 + 4 * n];
+        if i + 2 + w * n > v.len() { return None; }
+        let body = &v[i + 2..i + 2 + w * n];
+        let wide: Vec<[u8; 4]> = body.chunks(w).map(|c| if w == 4 { [c[0], c[1], c[2], c[3]] } else { [0, 0, c[0], c[1]] }).collect();
         if t == 2 && n > 0 {
-            for c in body.chunks(4) { out.push(RHop::Asn([c[0], c[1], c[2], c[3]])); }
+            for c in wide { out.push(RHop::Asn(c)); }
         } else {
-            out.push(RHop::Seg(t, body.to_vec()));
+            out.push(RHop::Seg(t, wide.concat()));
         }
-        i += 2 + 4 * n;
+        i += 2 + w * n;
     }
     Some(out)
 }
+fn ref_hops(v: &[u8]) -> Option<Vec<RHop>> { ref_hops_w(v, 4) }
 
-fn ref_valid(code: u8, v: &[u8]) -> bool {
+/// the same AS path with four-octet AS numbers (RFC 6793 4.2.2: a two-octet AS number is
+/// the four-octet number with the same value)
+fn widen_aspath(v: &[u8]) -> Vec<u8> {
+    let mut out = Vec::new();
+    let mut i = 0;
+    while i + 2 <= v.len() {
+        let n = v[i + 1] as usize;
+        out.push(v[i]); out.push(v[i + 1]);
+        for c in v[i + 2..(i + 2 + 2 * n).min(v.len())].chunks(2) { out.extend_from_slice(&[0, 0]); out.extend_from_slice(c); }
+        i += 2 + 2 * n;
+    }
+    out
+}
+
+/// per-type length rules; `four` = the session carries four-octet AS numbers (AS_PATH and
+/// AGGREGATOR change width with the session, AS4_PATH and AS4_AGGREGATOR never do)
+fn ref_valid_w(code: u8, v: &[u8], four: bool) -> bool {
     let n = v.len();
     match code {
         1 => n == 1,
-        2 | 17 => ref_hops(v).is_some(),
+        2 => ref_hops_w(v, if four { 4 } else { 2 }).is_some(),
+        17 => ref_hops(v).is_some(),
         3 | 4 | 5 | 9 | 20 | 35 => n == 4,
         6 => n == 0,
-        7 | 18 => n == 8,
+        7 => n == if four { 8 } else { 6 },
+        18 => n == 8,
         8 | 10 => n % 4 == 0,
         16 => n % 8 == 0,
         21 => n == 5,
@@ -493,6 +590,7 @@ fn ref_valid(code: u8, v: &[u8]) -> bool {
         _ => false,
     }
 }
+fn ref_valid(code: u8, v: &[u8]) -> bool { ref_valid_w(code, v, true) }
 
 #[derive(Clone, PartialEq, Debug)]
 struct RA { kind: char, code: u8, flags: u8, value: Vec<u8> }
@@ -511,9 +609,16 @@ impl RA {
             _ => None,
         }
     }
-    fn from_wire(w: &(u8, u8, Vec<u8>)) -> RA {
+    /// the typed value an attribute received in a session of this width denotes, written with
+    /// four-octet AS numbers (the only form the owned types have)
+    fn from_wire(w: &(u8, u8, Vec<u8>), four: bool) -> RA {
         match ref_flags(w.1) {
-            Some(f) => if ref_valid(w.1, &w.2) { RA { kind: 't', code: w.1, flags: f, value: w.2.clone() } }
+            Some(f) => if ref_valid_w(w.1, &w.2, four) {
+                           let value = if !four && w.1 == 2 { widen_aspath(&w.2) }
+                               else if !four && w.1 == 7 { let mut x = vec![0u8, 0]; x.extend_from_slice(&w.2); x }
+                               else { w.2.clone() };
+                           RA { kind: 't', code: w.1, flags: f, value }
+                       }
                        else { RA { kind: 'i', code: w.1, flags: f, value: w.2.clone() } },
             None => RA { kind: 'u', code: w.1, flags: w.0, value: w.2.clone() },
         }
@@ -570,12 +675,12 @@ impl RMap {
     }
     /// all attributes of an UPDATE except MP_REACH/MP_UNREACH; of duplicates the first
     /// (which is what `OwnedPathAttributes::get` answers from the same bytes)
-    fn from_pdu(pdu: &[u8]) -> Option<RMap> {
+    fn from_pdu(pdu: &[u8], four: bool) -> Option<RMap> {
         let sec = ref_attr_section(pdu)?;
         let mut m = RMap::default();
         for w in ref_wire(&sec) {
             if w.1 == 14 || w.1 == 15 { continue; }
-            if m.get(w.1).is_none() { m.put(RA::from_wire(&w)); }
+            if m.get(w.1).is_none() { m.put(RA::from_wire(&w, four)); }
         }
         Some(m)
     }
@@ -663,25 +768,28 @@ fn oracle_pm(toks: &[&str], reps: &[&str]) -> Result<(), String> {
                 for x in std::mem::take(&mut b.0) { a.put(x); }
                 if head != "M0" { return Err(e("merge_upsert left attributes in the source".into())); }
             }
-            ["fu", p] => {
+            [k, p] if sess_of("fu", k).is_some() => {
+                let (four, _) = sess_of("fu", k).unwrap();
                 if head == "Fok" {
-                    a = RMap::from_pdu(&unhex(p).unwrap()).ok_or_else(|| e("reference cannot read PDU".into()))?;
+                    a = RMap::from_pdu(&unhex(p).unwrap(), four).ok_or_else(|| e("reference cannot read PDU".into()))?;
                 } else if head != "Frej" { return Err(e(format!("from_update_pdu failed on an accepted PDU: {}", head))); }
             }
-            ["mu", p] => {
+            [k, p] if sess_of("mu", k).is_some() => {
+                let (four, _) = sess_of("mu", k).unwrap();
                 if head == "Uok" {
-                    let m = RMap::from_pdu(&unhex(p).unwrap()).ok_or_else(|| e("reference cannot read PDU".into()))?;
+                    let m = RMap::from_pdu(&unhex(p).unwrap(), four).ok_or_else(|| e("reference cannot read PDU".into()))?;
                     for x in m.0 { a.put(x); }
                 } else if head != "Urej" { return Err(e(format!("from_update_pdu failed on an accepted PDU: {}", head))); }
             }
-            ["own", p] => {
+            [k, p] if sess_of("own", k).is_some() => {
+                let (four, _) = sess_of("own", k).unwrap();
                 if head == "Orej" { continue; }
                 if head == "Oerr" { return Err(e("from_update_pdu failed on an accepted PDU".into())); }
                 let (own, map) = head[1..].split_once('/').ok_or_else(|| e("own reply".into()))?;
                 if own != map {
                     return Err(e(format!("OwnedPathAttributes::get and PaMap::get disagree: owned [{}] map [{}]", own, map)));
                 }
-                let m = RMap::from_pdu(&unhex(p).unwrap()).ok_or_else(|| e("reference cannot read PDU".into()))?;
+                let m = RMap::from_pdu(&unhex(p).unwrap(), four).ok_or_else(|| e("reference cannot read PDU".into()))?;
                 let want: Vec<&RA> = m.sorted().into_iter().filter(|x| x.kind == 't').collect();
                 let items: Vec<&str> = if own.is_empty() { vec![] } else { own.split(';').collect() };
                 if items.len() != want.len() { return Err(e(format!("typed attributes {} expected {}", items.len(), want.len()))); }
@@ -698,25 +806,34 @@ fn oracle_pm(toks: &[&str], reps: &[&str]) -> Result<(), String> {
     Ok(())
 }
 
+/// the next hop of the NLRI a workshop is built for: the NEXT_HOP attribute for conventional
+/// NLRI (RFC 4271 5.1.3), else the next hop field of MP_REACH_NLRI in the form the family uses
+/// (RFC 4760 3, 2545 3, 8277, 4364 4.3.2, 4659 3.2.1, 4684, 4761, 7432; FlowSpec has none, RFC 8955 4)
 fn ref_nexthop(mode: &str, pdu: &[u8]) -> Option<String> {
     let ws = ref_wire(&ref_attr_section(pdu)?);
-    if mode == "c" {
+    let conv = |ws: &Vec<(u8, u8, Vec<u8>)>| -> Option<String> {
         let w = ws.iter().find(|w| w.1 == 3)?;
         if w.2.len() == 4 { Some(format!("0.{}", hex(&w.2))) } else { None }
-    } else {
-        let w = ws.iter().find(|w| w.1 == 14)?;
-        let v = &w.2;
-        if v.len() < 4 { return None; }
-        let l = v[3] as usize;
-        if v.len() < 4 + l { return None; }
-        let tag = match (u16::from_be_bytes([v[0], v[1]]), v[2], l) {
-            (2, 1, 16) | (2, 2, 16) => 1,
-            (2, 1, 32) => 2,
-            (1, 2, 4) => 0,
-            _ => return None,
-        };
-        Some(format!("{}.{}", tag, hex(&v[4..4 + l])))
-    }
+    };
+    if mode == "c" { return conv(&ws); }
+    let w = ws.iter().find(|w| w.1 == 14)?;
+    let v = &w.2;
+    if v.len() < 4 { return None; }
+    let (afi, safi) = (u16::from_be_bytes([v[0], v[1]]), v[2]);
+    // IPv4 unicast NLRI of a PDU that has conventional NLRI are the conventional ones
+    if (afi, safi) == (1, 1) && ref_nlri_section(pdu).map_or(false, |s| !s.is_empty()) { return conv(&ws); }
+    let l = v[3] as usize;
+    if (afi == 1 || afi == 2) && safi == 133 { return Some("5.-".into()); }
+    if v.len() < 4 + l { return None; }
+    let tag = match (afi, safi, l) {
+        (1, 1, 4) | (1, 2, 4) | (1, 132, 4) | (25, 65, 4) | (25, 70, 4) | (1, 4, 4) | (2, 4, 4) => 0,
+        (2, 1, 16) | (2, 2, 16) | (1, 4, 16) | (2, 4, 16) => 1,
+        (2, 1, 32) => 2,
+        (1, 128, 12) => 3,
+        (2, 128, 24) => 4,
+        _ => return None,
+    };
+    Some(format!("{}.{}", tag, hex(&v[4..4 + l])))
 }
 
 fn oracle_ws(toks: &[&str], reps: &[&str]) -> Result<(), String> {
@@ -770,17 +887,20 @@ fn oracle_ws(toks: &[&str], reps: &[&str]) -> Result<(), String> {
                 let old = a.del(c.parse().unwrap()).filter(|x| x.kind == 't');
                 check_ret(&head[1..], old.as_ref(), "remove").map_err(e)?;
             }
-            ["wfu", mode, p] => {
+            [k, mode, p] if sess_of("wfu", k).is_some() => {
+                let (four, _) = sess_of("wfu", k).unwrap();
+                let pdu = unhex(p).unwrap();
                 if head == "Uok" {
-                    let pdu = unhex(p).unwrap();
                     let want = ref_nexthop(mode, &pdu);
                     nh = want.clone();
                     if want.is_none() { return Err(e("workshop built although the NLRI has no next hop in the PDU".into())); }
-                    a = RMap::from_pdu(&pdu).ok_or_else(|| e("reference cannot read PDU".into()))?;
+                    a = RMap::from_pdu(&pdu, four).ok_or_else(|| e("reference cannot read PDU".into()))?;
                     a.del(3);
                     if *mode == "c" && ref_nlri_section(&pdu).map_or(true, |s| s.is_empty()) {
                         return Err(e("conventional NLRI taken from a PDU without any".into()));
                     }
+                } else if head == "Uerr" && ref_nexthop(mode, &pdu).is_some() {
+                    return Err(e("from_update_pdu failed although the PDU carries the next hop of the NLRI".into()));
                 }
             }
             _ => return Err(e("unknown token".into())),
@@ -868,18 +988,6 @@ fn gen_spec(rng: &mut Rng, pool: &[u8]) -> String {
     }
 }
 
-fn gen_prefixes4(rng: &mut Rng, max: usize) -> Vec<u8> {
-    let mut v = Vec::new();
-    for _ in 0..rng.usize(0, max) {
-        let bits = *rng.pick(&[0u8, 8, 16, 24, 32, 1, 7, 9, 17, 23, 25, 31, 20]);
-        let nb = (bits as usize + 7) / 8;
-        let mut b = rng.bytes(nb);
-        if bits % 8 != 0 { let m = 0xffu8 << (8 - bits % 8); b[nb - 1] &= m; }
-        v.push(bits);
-        v.extend(b);
-    }
-    v
-}
 
 fn gen_prefix(rng: &mut Rng, maxbits: u8) -> Vec<u8> {
     let bits = rng.range(0, maxbits as u64) as u8;
@@ -902,13 +1010,65 @@ fn wire_attr(fl: u8, code: u8, val: &[u8], force_ext: bool) -> Vec<u8> {
     v
 }
 
-/// an UPDATE that routecore accepts; `want_conv`/`want_mp` steer what it announces
-fn gen_pdu(rng: &mut Rng, want_conv: bool, want_mp: bool) -> Vec<u8> {
-    let wd = if rng.chance(1, 4) { gen_prefixes4(rng, 2) } else { vec![] };
+fn gen_aspath2(rng: &mut Rng) -> Vec<u8> {
+    let mut v = Vec::new();
+    let nseg = match rng.below(10) { 0 => 0, 1..=5 => 1, 6..=8 => 2, _ => 3 };
+    for _ in 0..nseg {
+        let t = match rng.below(8) { 0 => 1, 1 => 3, 2 => 4, _ => 2 };
+        let n = match rng.below(40) { 0 => 0, 1 => 255, 2 => 130, _ => rng.usize(1, 4) };
+        v.push(t);
+        v.push(n as u8);
+        for _ in 0..n { v.extend(match rng.below(6) { 0 => 23456u16, 1 => 0, 2 => 65535, _ => rng.u16() }.to_be_bytes()); }
+    }
+    v
+}
+
+/// value of an attribute as a speaker of a session of this width sends it
+fn gen_val_w(rng: &mut Rng, code: u8, valid: bool, four: bool) -> Vec<u8> {
+    if four || (code != 2 && code != 7) { return gen_val(rng, code, valid); }
+    if code == 7 { let n = if valid { 6 } else { *rng.pick(&[5usize, 7, 8, 0]) }; return rng.bytes(n); }
+    let mut v = gen_aspath2(rng);
+    if !valid { v.push(2); v.push(3); v.push(0); }
+    v
+}
+
+const MP_FAMS: [((u16, u8), &str); 13] = [((1, 1), "Ipv4Unicast"), ((1, 2), "Ipv4Multicast"), ((1, 4), "Ipv4MplsUnicast"),
+    ((1, 128), "Ipv4MplsVpnUnicast"), ((1, 132), "Ipv4RouteTarget"), ((1, 133), "Ipv4FlowSpec"), ((2, 1), "Ipv6Unicast"),
+    ((2, 2), "Ipv6Multicast"), ((2, 4), "Ipv6MplsUnicast"), ((2, 128), "Ipv6MplsVpnUnicast"), ((2, 133), "Ipv6FlowSpec"),
+    ((25, 65), "L2VpnVpls"), ((25, 70), "L2VpnEvpn")];
+
+/// NLRI of an MP family (reference encoding of c05 values), with path ids in an ADD-PATH session
+fn gen_mp_nlri(rng: &mut Rng, fam: usize, ap: bool, min: usize) -> Vec<u8> {
+    let name = MP_FAMS[fam].1;
+    let var = c05::variant(&if ap { format!("{}Addpath", name) } else { name.to_string() }).unwrap();
+    let mut out = Vec::new();
+    for _ in 0..rng.usize(min, 2) {
+        let mut v = c05::gen_val(rng, var);
+        if v.raw.len() > 40 { v.raw = if var.shape == c05::Shape::Fs && !var.v6 { c05::gen_fs_components(rng, 7) } else { rng.bytes(7) }; }
+        out.extend(c05::ref_enc(var.shape, &v));
+    }
+    out
+}
+
+/// IPv4 unicast prefixes for the conventional sections, with path ids in an ADD-PATH session
+fn gen_conv(rng: &mut Rng, ap: bool, min: usize, max: usize) -> Vec<u8> {
+    let mut v = Vec::new();
+    for _ in 0..rng.usize(min, max) {
+        if ap { v.extend(rng.u32().to_be_bytes()); }
+        v.extend(gen_prefix(rng, 32));
+    }
+    v
+}
+
+/// an UPDATE that routecore accepts in a session of the given kind; `want_conv`/`want_mp`
+/// steer what it announces
+fn gen_pdu_s(rng: &mut Rng, want_conv: bool, want_mp: bool, four: bool, ap: bool) -> Vec<u8> {
+    let wd = if rng.chance(1, 4) { gen_conv(rng, ap, 0, 2) } else { vec![] };
     let mut attrs: Vec<Vec<u8>> = Vec::new();
     let mut codes: Vec<u8> = vec![1, 2];
     if want_conv || rng.chance(1, 3) { codes.push(3); }
     for _ in 0..rng.usize(0, 5) { codes.push(*rng.pick(&TYPED)); }
+    if !four && rng.chance(1, 2) { codes.push(*rng.pick(&[7u8, 17, 18, 2])); }
     if rng.chance(1, 4) { codes.push(*rng.pick(&UNIMPL_CODES)); }
     if rng.chance(1, 5) { let c = *rng.pick(&codes); codes.push(c); }          // duplicate code
     if rng.chance(1, 12) { codes.retain(|c| *c != 3); }
@@ -917,7 +1077,9 @@ fn gen_pdu(rng: &mut Rng, want_conv: bool, want_mp: bool) -> Vec<u8> {
     for c in codes {
         if let Some(f) = ref_flags(c) {
             let valid = !rng.chance(1, 12);
-            let val = gen_val(rng, c, valid);
+            // sometimes what a speaker of the other width would send
+            let w = if (c == 2 || c == 7) && rng.chance(1, 10) { !four } else { four };
+            let val = gen_val_w(rng, c, valid, w);
             let fl = if rng.chance(1, 10) { *rng.pick(&[0x40u8, 0x80, 0xC0, 0xE0]) } else { f };
             attrs.push(wire_attr(fl, c, &val, rng.chance(1, 15)));
         } else {
@@ -927,26 +1089,26 @@ fn gen_pdu(rng: &mut Rng, want_conv: bool, want_mp: bool) -> Vec<u8> {
         }
     }
     if want_mp || rng.chance(1, 5) {
-        let (afi, safi, nhl): (u16, u8, usize) = match rng.below(12) {
-            0..=4 => (2, 1, 16), 5 => (2, 1, 32), 6 | 7 => (1, 2, 4), 8 | 9 => (2, 2, 16),
-            10 => (1, 1, 4), _ => (1, 4, 4),
-        };
+        // the family and a next hop length: mostly one the family uses
+        let fam = match rng.below(20) { 0..=4 => 6, 5 => 1, 6 => 7, 7 => 0, _ => rng.usize(0, 12) };
+        let (afi, safi) = MP_FAMS[fam].0;
+        let natural: &[usize] = match (afi, safi) { (2, 1) => &[16, 16, 32], (2, 2) => &[16], (1, 4) | (2, 4) => &[4, 16], (1, 128) => &[12],
+            (2, 128) => &[24], (_, 133) => &[0], _ => &[4] };
+        let nhl = if rng.chance(1, 12) { *rng.pick(&[0usize, 4, 8, 12, 16, 24, 32]) } else { *rng.pick(natural) };
         let mut v = Vec::new();
         v.extend(afi.to_be_bytes()); v.push(safi); v.push(nhl as u8); v.extend(rng.bytes(nhl)); v.push(0);
-        if safi != 4 {
-            for _ in 0..rng.usize(if want_mp { 1 } else { 0 }, 2) { v.extend(gen_prefix(rng, if afi == 1 { 32 } else { 128 })); }
-        }
+        v.extend(gen_mp_nlri(rng, fam, ap, if want_mp { 1 } else { 0 }));
         let at = rng.usize(0, attrs.len());
         attrs.insert(at, wire_attr(0x80, 14, &v, false));
     }
     if rng.chance(1, 8) {
         let mut v = vec![0, 2, 1];
+        if ap { v.extend(rng.u32().to_be_bytes()); }
         v.extend(gen_prefix(rng, 128));
         attrs.push(wire_attr(0x80, 15, &v, false));
     }
     let attrs: Vec<u8> = attrs.concat();
-    let nlri = if want_conv { let mut v = gen_prefix(rng, 32); v.extend(gen_prefixes4(rng, 1)); v }
-               else if rng.chance(1, 4) { gen_prefixes4(rng, 2) } else { vec![] };
+    let nlri = if want_conv { gen_conv(rng, ap, 1, 2) } else if rng.chance(1, 4) { gen_conv(rng, ap, 0, 2) } else { vec![] };
     let len = 19 + 2 + wd.len() + 2 + attrs.len() + nlri.len();
     let mut p = vec![0xffu8; 16];
     p.extend((len as u16).to_be_bytes());
@@ -989,8 +1151,13 @@ fn mutate_attrs(rng: &mut Rng, pdu: Vec<u8>) -> Vec<u8> {
     m
 }
 
-fn gen_src(rng: &mut Rng) -> Vec<u8> {
-    let p = gen_pdu(rng, false, false);
+/// session suffix of a PDU token and what it stands for
+fn gen_sess(rng: &mut Rng) -> (&'static str, bool, bool) {
+    match rng.below(10) { 0..=4 => ("", true, false), 5..=6 => ("2", false, false), 7..=8 => ("a", true, true), _ => ("2a", false, true) }
+}
+
+fn gen_src(rng: &mut Rng, four: bool, ap: bool) -> Vec<u8> {
+    let p = gen_pdu_s(rng, false, false, four, ap);
     if rng.chance(1, 3) { mutate_attrs(rng, p) } else { p }
 }
 
@@ -1031,9 +1198,9 @@ fn gen_pm(rng: &mut Rng) -> String {
             76..=79 => "rnt".into(),
             80..=84 => "sw".into(),
             85..=88 => "mg".into(),
-            89..=92 => format!("fu:{}", hex(&gen_src(rng))),
-            93..=96 => format!("mu:{}", hex(&gen_src(rng))),
-            _ => format!("own:{}", hex(&gen_src(rng))),
+            89..=92 => { let (x, f, a) = gen_sess(rng); format!("fu{}:{}", x, hex(&gen_src(rng, f, a))) }
+            93..=96 => { let (x, f, a) = gen_sess(rng); format!("mu{}:{}", x, hex(&gen_src(rng, f, a))) }
+            _ => { let (x, f, a) = gen_sess(rng); format!("own{}:{}", x, hex(&gen_src(rng, f, a))) }
         };
         toks.push(t);
     }
@@ -1041,10 +1208,13 @@ fn gen_pm(rng: &mut Rng) -> String {
 }
 
 fn gen_nh(rng: &mut Rng) -> String {
-    match rng.below(3) {
+    match rng.below(6) {
         0 => format!("nh:0:{}", hex(&rng.bytes(4))),
         1 => format!("nh:1:{}", hex(&rng.bytes(16))),
-        _ => format!("nh:2:{}", hex(&rng.bytes(32))),
+        2 => format!("nh:2:{}", hex(&rng.bytes(32))),
+        3 => format!("nh:3:{}", hex(&rng.bytes(12))),
+        4 => format!("nh:4:{}", hex(&rng.bytes(24))),
+        _ => "nh:5:-".to_string(),
     }
 }
 
@@ -1066,8 +1236,8 @@ fn gen_ws(rng: &mut Rng) -> String {
                 format!("add:{}", gen_spec(rng, &lp))
             }
             85..=88 => format!("rm:{}", *rng.pick(&[8u8, 16, 25, 32, c])),
-            89..=94 => { let (x, y) = (!rng.chance(1, 10), rng.chance(1, 4)); format!("wfu:c:{}", hex(&gen_pdu(rng, x, y))) }
-            _ => { let (x, y) = (rng.chance(1, 4), !rng.chance(1, 10)); format!("wfu:m:{}", hex(&gen_pdu(rng, x, y))) }
+            89..=94 => { let (x, y) = (!rng.chance(1, 10), rng.chance(1, 4)); let (sx, f, a) = gen_sess(rng); format!("wfu{}:c:{}", sx, hex(&gen_pdu_s(rng, x, y, f, a))) }
+            _ => { let (x, y) = (rng.chance(1, 4), !rng.chance(1, 10)); let (sx, f, a) = gen_sess(rng); format!("wfu{}:m:{}", sx, hex(&gen_pdu_s(rng, x, y, f, a))) }
         };
         toks.push(t);
     }
@@ -1091,6 +1261,33 @@ impl Prop for C17 {
             let v2 = gen_val(rng, c, true);
             out.push(format!("ws get:{c} set:{c}:{} get:{c} set:{c}:{} get:{c}", hex(&v1), hex(&v2)));
         }
+        // every MP family in every kind of session: the workshop's next hop, the map, the owned form
+        for fam in 0..13 {
+            for (sx, f, a) in [("", true, false), ("2", false, false), ("a", true, true), ("2a", false, true)] {
+                for _ in 0..2 {
+                    let (afi, safi) = MP_FAMS[fam].0;
+                    let nhls: &[usize] = match (afi, safi) { (2, 1) => &[16, 32], (2, 2) => &[16], (1, 4) | (2, 4) => &[4, 16], (1, 128) => &[12],
+                        (2, 128) => &[24], (_, 133) => &[0], _ => &[4] };
+                    for &nhl in nhls {
+                        let mut v = Vec::new();
+                        v.extend(afi.to_be_bytes()); v.push(safi); v.push(nhl as u8); v.extend(rng.bytes(nhl)); v.push(0);
+                        v.extend(gen_mp_nlri(rng, fam, a, 1));
+                        let mut attrs = wire_attr(0x40, 1, &[0], false);
+                        attrs.extend(wire_attr(0x40, 2, &gen_val_w(rng, 2, true, f), false));
+                        attrs.extend(wire_attr(0x80, 14, &v, false));
+                        attrs.extend(wire_attr(0xC0, 7, &gen_val_w(rng, 7, true, f), false));
+                        attrs.extend(wire_attr(0x40, 5, &rng.bytes(4), false));
+                        let len = 23 + attrs.len();
+                        let mut p = vec![0xffu8; 16];
+                        p.extend((len as u16).to_be_bytes()); p.push(2); p.extend([0, 0]);
+                        p.extend((attrs.len() as u16).to_be_bytes()); p.extend(attrs);
+                        let p = hex(&p);
+                        out.push(format!("ws wfu{sx}:m:{p} get:2 get:7 getc"));
+                        out.push(format!("pm own{sx}:{p} fu{sx}:{p} get:2 get:7 rnt"));
+                    }
+                }
+            }
+        }
         for i in 0..n {
             match i % 10 {
                 0..=5 => out.push(gen_pm(rng)),
@@ -1098,13 +1295,14 @@ impl Prop for C17 {
                 _ => {
                     // a source PDU through every consumer
                     let (x, y) = (rng.chance(2, 3), rng.chance(2, 3));
-                    let raw = gen_pdu(rng, x, y);
+                    let (sx, f, a) = gen_sess(rng);
+                    let raw = gen_pdu_s(rng, x, y, f, a);
                     let p = hex(&raw);
                     let q = hex(&mutate_attrs(rng, raw));
-                    out.push(format!("pm own:{p} fu:{p} rnt"));
-                    out.push(format!("pm own:{q} fu:{q} rnt"));
-                    out.push(format!("ws wfu:c:{p} getc"));
-                    out.push(format!("ws wfu:m:{p} getc"));
+                    out.push(format!("pm own{sx}:{p} fu{sx}:{p} rnt"));
+                    out.push(format!("pm own{sx}:{q} fu{sx}:{q} rnt"));
+                    out.push(format!("ws wfu{sx}:c:{p} getc"));
+                    out.push(format!("ws wfu{sx}:m:{p} getc"));
                 }
             }
         }
@@ -1157,12 +1355,17 @@ impl Prop for C17 {
         let len = if n <= 5 { "1-5" } else if n <= 15 { "6-15" } else if n <= 30 { "16-30" } else { "31-40" };
         let padded = format!(" {}", line);
         let mut feat = String::new();
-        for (k, name) in [(" fu:", "+upd"), (" mu:", "+upd"), (" own:", "+owned"), (" wfu:", "+wfu"),
+        for (k, name) in [(" fu", "+upd"), (" mu", "+upd"), (" own", "+owned"), (" wfu", "+wfu"),
                           (" setc:", "+comms"), (" mg", "+merge"), (" rnt", "+rnt")] {
             if padded.contains(k) && !feat.contains(name) { feat.push_str(name); }
         }
+        for (ks, name) in [([" fu2:", " mu2:", " own2:", " wfu2:"], "+2oct"), ([" fua:", " mua:", " owna:", " wfua:"], "+addpath"),
+                           ([" fu2a:", " mu2a:", " own2a:", " wfu2a:"], "+2oct+addpath")] {
+            if ks.iter().any(|k| padded.contains(k)) { feat.push_str(name); }
+        }
         let mut outc = String::new();
-        for (k, name) in [("Uok|nh=0", ":nh4"), ("Uok|nh=1", ":nh6"), ("Uok|nh=2", ":nhll"), ("Uerr", ":uerr"), ("Unonlri", ":nonlri"),
+        for (k, name) in [("Uok|nh=0", ":nh4"), ("Uok|nh=1", ":nh6"), ("Uok|nh=2", ":nhll"), ("Uok|nh=3", ":nhvpn4"), ("Uok|nh=4", ":nhvpn6"),
+                          ("Uok|nh=5", ":nhempty"), ("Uerr", ":uerr"), ("Unonlri", ":nonlri"),
                           ("rej", ":rej")] {
             if reply.contains(k) { outc.push_str(name); }
         }
